@@ -19,6 +19,7 @@ import (
 	"strings"
 	"testing"
 	"time"
+	"unicode/utf16"
 
 	"github.com/tjfoc/gmsm/gmtls"
 	"github.com/tjfoc/gmsm/pkcs12"
@@ -256,8 +257,14 @@ func setup() {
 		}
 		return b
 	}
-	add("pkcs12.DecodeAll(reMAC)", true, [][]byte{pfx}, func(b []byte) { pkcs12.DecodeAll(remac(b), "pw") })
-	add("pkcs12.ToPEM(reMAC)", true, [][]byte{pfx}, func(b []byte) { pkcs12.ToPEM(remac(b), "pw") })
+	p12seeds := [][]byte{pfx}
+	if withAttr, ok := p12WithAttributes(pfx, []byte{0x8b, 0xc1, 0x4e, 0x66, 0x00, 0x31}, []byte{0x00, 0x63, 0x00, 0x73, 0x00, 0x70, 0x00, 0x00}); ok {
+		p12seeds = append(p12seeds, withAttr) // a bundle whose key bag carries friendlyName and CSP-name attributes
+	} else {
+		panic("harness: could not build the PKCS#12 seed with attributes")
+	}
+	add("pkcs12.DecodeAll(reMAC)", true, p12seeds, func(b []byte) { pkcs12.DecodeAll(remac(b), "pw") })
+	add("pkcs12.ToPEM(reMAC)", true, p12seeds, func(b []byte) { pkcs12.ToPEM(remac(b), "pw") })
 	// SM2 ciphertexts, signatures, points
 	ct, _, _, _ := cv.Encrypt(key.Pub, []byte("sm2 plaintext for decoder seeds"), big.NewInt(424242), rsm2.C1C3C2)
 	ct2, _, _, _ := cv.Encrypt(key.Pub, []byte("x"), big.NewInt(99), rsm2.C1C2C3)
@@ -328,7 +335,7 @@ func TestMain(m *testing.M) {
 			R.Require(d.name+"/len_rewrite", d.name+"/tag_swap")
 		}
 	}
-	R.Require("ber_depth>=1000", "vec_len_sweep", "hello_ext_sweep", "der_value_sweep")
+	R.Require("p12_attr_decoded", "p12_attr_odd", "ber_depth>=1000", "vec_len_sweep", "hello_ext_sweep", "der_value_sweep")
 	R.Assume("inputs that declare more than 4096 key-stretching iterations are skipped and counted as discarded (the statement exempts format-carried stretching)")
 	hx.Main(m, R)
 }
@@ -542,6 +549,131 @@ func TestC18_HelloExtensions(t *testing.T) {
 		t.Fatalf("harness: only %d hello extension mutations generated", n)
 	}
 	R.Subspace("length-consistent extension mutations of every captured ClientHello/ServerHello", n, true)
+}
+
+// p12WithAttributes adds a friendlyName and a Microsoft CSP name attribute (BMPStrings with the given UCS-2 contents) to
+// the key bag of a bundle the library encoded, and restores the MAC. (Encode itself never writes these attributes; files
+// from other tools carry them, and ToPEM turns them into PEM headers.)
+func p12WithAttributes(pfx, friendly, csp []byte) ([]byte, bool) {
+	localKeyID := []byte{0x06, 0x09, 0x2a, 0x86, 0x48, 0x86, 0xf7, 0x0d, 0x01, 0x09, 0x15}
+	attr := func(oid []byte, bmp []byte) []byte {
+		return rder.EncSeq(oid, append(rder.EncLen(0x31, len(rder.EncLen(0x1e, len(bmp)))+len(bmp)), append(rder.EncLen(0x1e, len(bmp)), bmp...)...))
+	}
+	out, ok := gen.DERReplaceWhere(pfx, func(t rder.TLV, c []byte) bool { return t.Tag == 0x31 && bytes.Contains(c, localKeyID) && t.Len < 200 }, 0x31, func(old []byte) []byte {
+		n := append([]byte{}, old...)
+		n = append(n, attr([]byte{0x06, 0x09, 0x2a, 0x86, 0x48, 0x86, 0xf7, 0x0d, 0x01, 0x09, 0x14}, friendly)...)
+		return append(n, attr([]byte{0x06, 0x09, 0x2b, 0x06, 0x01, 0x04, 0x01, 0x82, 0x37, 0x11, 0x01}, csp)...)
+	})
+	if !ok {
+		return nil, false
+	}
+	stored, wanted, err := pkcs12.VerifMacDigests(out, "pw")
+	if err != nil || len(stored) != len(wanted) || len(stored) == 0 {
+		return nil, false
+	}
+	i := bytes.LastIndex(out, stored)
+	if i < 0 {
+		return nil, false
+	}
+	copy(out[i:], wanted)
+	return out, true
+}
+
+// PKCS#12 bag attributes: every BMPString content of 0..5 bytes over {00, 01, 4e, ff} (quick: 0..4) as friendlyName,
+// behind a valid MAC, through ToPEM / DecodeAll / Decode: no panic, no hang; odd lengths are refused by ToPEM; when ToPEM
+// answers, the header is the UCS-2 decoding of the content (one trailing zero unit being a terminator).
+func TestC18_PKCS12Attributes(t *testing.T) {
+	p := tlsx.GetPKI()
+	pfx, err := pkcs12.Encode(p.SrvSign.Key, p.SrvSign.Cert, nil, "pw")
+	if err != nil {
+		t.Fatal(err)
+	}
+	ucs2 := func(s string) (o []byte) {
+		for _, r := range s {
+			o = append(o, byte(r>>8), byte(r))
+		}
+		return
+	}
+	var contents [][]byte
+	for _, s := range []string{"verif key", "证书", "证书一", "Ā", "一", "a\x00", "Microsoft Enhanced Cryptographic Provider v1.0"} {
+		contents = append(contents, ucs2(s), append(ucs2(s), 0, 0))
+	}
+	maxLen := 4
+	if hx.Thorough() {
+		maxLen = 6
+	}
+	alphabet := []byte{0x00, 0x01, 0x4e, 0xff}
+	var rec func(cur []byte)
+	rec = func(cur []byte) {
+		contents = append(contents, append([]byte{}, cur...))
+		if len(cur) == maxLen {
+			return
+		}
+		for _, a := range alphabet {
+			rec(append(cur, a))
+		}
+	}
+	rec(nil)
+	var n int64
+	for i, c := range contents {
+		friendly, csp := c, ucs2("csp")
+		if i%3 == 2 {
+			friendly, csp = ucs2("name"), c
+		}
+		in, ok := p12WithAttributes(pfx, friendly, csp)
+		if !ok {
+			t.Fatalf("harness: could not add attributes to the bundle")
+		}
+		var blocks []*pem.Block
+		var perr error
+		if pn, hung := hx.TryBounded(hangLimit, func() { blocks, perr = pkcs12.ToPEM(in, "pw") }); hung {
+			hx.Hang(R, "TestC18_PKCS12Attributes", fmt.Sprintf("ToPEM does not return for a bundle whose attribute string is %x", c))
+		} else if pn != nil {
+			t.Fatalf("pkcs12.ToPEM PANICKED on a bundle (valid MAC) whose friendlyName/CSP-name BMPString content is %x: %v\n%s", c, pn.Val, pn.Stack)
+		}
+		if pn, hung := hx.TryBounded(hangLimit, func() { pkcs12.DecodeAll(in, "pw"); pkcs12.Decode(in, "pw") }); hung {
+			hx.Hang(R, "TestC18_PKCS12Attributes", fmt.Sprintf("DecodeAll/Decode do not return for a bundle whose attribute string is %x", c))
+		} else if pn != nil {
+			t.Fatalf("pkcs12.DecodeAll/Decode PANICKED on a bundle (valid MAC) whose attribute string is %x: %v\n%s", c, pn.Val, pn.Stack)
+		}
+		cl := "p12_attr_even"
+		if len(c)%2 == 1 {
+			cl = "p12_attr_odd"
+			if perr == nil {
+				t.Fatalf("pkcs12.ToPEM accepted a BMPString of odd length (%x)", c)
+			}
+		} else if perr == nil {
+			units := c
+			if l := len(units); l >= 2 && units[l-1] == 0 && units[l-2] == 0 {
+				units = units[:l-2]
+			}
+			var u []uint16
+			for j := 0; j+1 < len(units); j += 2 {
+				u = append(u, uint16(units[j])<<8|uint16(units[j+1]))
+			}
+			want := string(utf16.Decode(u))
+			key := "friendlyName"
+			if i%3 == 2 {
+				key = "Microsoft CSP Name"
+			}
+			found := false
+			for _, b := range blocks {
+				if v, ok := b.Headers[key]; ok {
+					found = true
+					if v != want {
+						t.Fatalf("pkcs12.ToPEM: header %q is %q for BMPString content %x, want %q", key, v, c, want)
+					}
+				}
+			}
+			if !found {
+				t.Fatalf("pkcs12.ToPEM returned no %q header for a key bag that carries one (content %x)", key, c)
+			}
+			cl = "p12_attr_decoded"
+		}
+		n++
+		R.Case(true, hx.HashKey("p12attr", c, i%3), "p12_attributes", cl)
+	}
+	R.Subspace("PKCS#12 key-bag friendlyName / CSP name BMPString contents: named strings and every byte string up to the length bound over {00,01,4e,ff}, valid MAC", n, true)
 }
 
 func TestC18_DeepBER(t *testing.T) {
